@@ -121,8 +121,9 @@ CLAIMS['C03']['text'] = (_FIN + 'Here: to_f64/to_f32, the From<P> for f32/f64 sp
     ' For P32E2 the streams contain target-format boundary sources (midpoints between adjacent f32 values with carry-rippling mantissas) and the extreme regimes; '
     'the Display/FromStr leg runs the real code (x.to_string().parse()) and is modelled as the f64 round trip (std print/parse contract assumed).')
 CLAIMS['C04']['text'] += (' ADDED: Q16E1 is factored the same way for all 2^128 states (q16_fdp_factor, q16_fdp_one_factor, 128-bit wrap-around lemma); '
-    'q16_step_one / q16_history_singles are unconditional (single-posit accumulations), q16_step / q16_history hold under the explicit hypothesis Delta16Prod '
-    '(the 2^33-entry product table: not discharged in any tier - PARTIAL). C12.q8_history_rounds_partial: for Q8E0, after any history with |final sum| < 32768, to_posit is the exact sum rounded once.')
+    'q16_step_one / q16_history_singles are unconditional (single-posit accumulations), q16_step / q16_history hold under the explicit hypothesis Delta16Prod, '
+    'which C04.delta16_prod proves (product table factored into per-operand decode tables + one triangular native_decide sweep of 2^29 magnitude pairs in 128 shards + symmetry and negation lemmas), giving the unconditional C04.q16_history_all: '
+    'after ANY finite history of +=/-= of products and single posits whose partial sums stay in range the Q16E1 accumulator holds exactly the sum. PARTIAL: to_posit of Q16E1 and all of Q32E2 by correspondence. C12.q8_history_rounds_partial: for Q8E0, after any history with |final sum| < 32768, to_posit is the exact sum rounded once.')
 CLAIMS['C06']['text'] += (' For P32E2 every run additionally evaluates the 10^6 hardest-to-round inputs of all 2^31 positive patterns (exact integer search by a crate-independent tool in the harness: '
     'inputs whose exact root lies within 2.3e-4 ulp of a rounding boundary).')
 CLAIMS['C12']['text'] = ('Theorems: to_posit(from_posit p) = p for every P8E0 and P16E1 pattern; neg is twos-complement negation of the whole accumulator for EVERY Q8E0/Q16E1 state; clear gives zero from every state; '
@@ -139,7 +140,7 @@ CLAIMS['C14']['text'] = ('Theorems (native_decide, complete source spaces) on th
     'against the exact-sum oracle (hand model pinned by source hash); generic-to-generic (M,N) pairs are NOT covered. Open findings by call site: from-integer conversions of PxE1, PxE2::from_i64 / from_i32.')
 CLAIMS['C15']['text'] += (' ADDED: theorem C15.pi_split_close (the regenerated constants PI_A + PI_B + PI_C are within 2e-20 of Real.pi; kernel evaluation + Mathlib pi bounds); the streams contain the 3000 worst-case '
     'argument-reduction inputs (all ~250000 multiples of pi/2 scanned) and a sign-logic / special-case stream for powf outside the box [0.5,5)^2 (gross correctness only there). Open finding POWF-6ULP (5 pairs in 13.5 million at 6 ulp).')
-CLAIMS['C17']['text'] = ('220 symbolic forwarding theorems (Props/C17Fwd.lean, no enumeration, axioms propext/Quot.sound): every operator trait, op-assign form, From/Into impl, num_traits Float/Signed/ToPrimitive/FromPrimitive method and every Quire trait method '
+CLAIMS['C17']['text'] = ('398 symbolic forwarding theorems (Props/C17Fwd.lean, no enumeration, axioms propext/Quot.sound): every operator trait, op-assign form, From/Into impl, EVERY method of the num_traits Float/Signed/FloatConst/Bounded/Zero/One/ToPrimitive/FromPrimitive impls (except the two todo!() bodies Float::abs_sub and integer_decode) and every Quire trait method '
     '(Q8E0, Q16E1, Q32E2 for P32E2 and for PxE2<N>) equals the inherent operation for EVERY input / quire state. ' + _FIN +
     'Here: the num_traits Signed/Zero/One/Float spellings and the op-assign forms against the Spec of the inherent operation. ' + _WIDE +
     ' A pairwise agreement stream compares spelled and inherent operations on identical inputs. NumCast::from<N> and from_str_radix are not modelled (foreign generics / parsing).')
